@@ -917,6 +917,20 @@ func runVisit(in *mvInput, r *rand.Rand, n int, sink *CaseSink, replay bool) {
 		in.Conc = []int{1, 2, 8}[r.Intn(3)]
 		if r.Intn(4) == 0 {
 			in.ErrAt = 1 + r.Intn(6)
+			if r.Intn(2) == 0 {
+				// every delivery fails: every worker goroutine gives up while shards are still queued
+				in.ErrAt = -1
+				in.Shards = []int{16, 64}[r.Intn(2)]
+				in.Conc = []int{1, 2}[r.Intn(2)]
+				// enough items for more shards than twice the workers
+				g := &mvGen{r: r, e: e, nkeys: 26, ops: in.Ops}
+				for k := 0; k < 60; k++ {
+					g.do(mvOp{Op: "put", W: 0, Bs: b2i(append(g.item(r.Intn(26)), byte('a'+k%26), byte('0'+k/26)))})
+				}
+				g.do(mvOp{Op: "snap"})
+				in.Ops = g.ops
+				in.Sn = int(e.ref.currSn - 1)
+			}
 		}
 	}
 	e.quiesce()
@@ -943,7 +957,7 @@ func runVisit(in *mvInput, r *rand.Rand, n int, sink *CaseSink, replay bool) {
 			mu.Lock()
 			defer mu.Unlock()
 			deliveries++
-			if in.ErrAt > 0 && deliveries == in.ErrAt {
+			if in.ErrAt == -1 || (in.ErrAt > 0 && deliveries == in.ErrAt) {
 				return fmt.Errorf("injected")
 			}
 			got[shard] = append(got[shard], append([]byte(nil), itm.Bytes()...))
@@ -960,9 +974,9 @@ func runVisit(in *mvInput, r *rand.Rand, n int, sink *CaseSink, replay bool) {
 		e.fail("c10-hang", "Visitor did not terminate within 20s")
 		verr = fmt.Errorf("hang")
 	}
-	if in.ErrAt > 0 {
+	if in.ErrAt != 0 {
 		// only the oracle: an error must be reported when the callback failed
-		if deliveries >= in.ErrAt && verr == nil {
+		if ((in.ErrAt > 0 && deliveries >= in.ErrAt) || (in.ErrAt == -1 && deliveries >= 1)) && verr == nil {
 			e.fail("c10-error", fmt.Sprintf("callback failed at delivery %d but Visitor returned nil", in.ErrAt))
 		}
 		sink.Count("visit-error-placement", 1)
